@@ -39,6 +39,8 @@ func classify(err error) string {
 		return "work_err"
 	case errors.Is(err, def.ErrWorkIdNotFound):
 		return "not_found"
+	case errors.Is(err, context.Canceled) && strings.Contains(err.Error(), "work function panic"):
+		return "ctx_from_panic" // a panicked work function reported as a cancellation
 	case errors.Is(err, context.Canceled):
 		return "ctx"
 	case errors.Is(err, context.DeadlineExceeded):
@@ -93,6 +95,10 @@ func runDispCase(fetch, reg, dl, beh, cancelAt, cdl string) string {
 			return errWork
 		case "panic":
 			panic("work function panic")
+		case "panicerr":
+			// a panic VALUE that is an error whose chain contains context.Canceled (e.g. `must(err)` after a private
+			// child context was cancelled): still a panic of the work function, not a cancellation of the dispatch
+			panic(fmt.Errorf("work function panic: %w", context.Canceled))
 		case "block":
 			select {
 			case <-wctx.Done():
@@ -240,7 +246,7 @@ func cmdDisp(args []string) {
 		for _, f := range []string{"ok", "err"} {
 			for _, r := range []string{"1", "0"} {
 				for _, dl := range []string{"none", "past", "future"} {
-					for _, b := range []string{"nil", "err", "panic", "block"} {
+					for _, b := range []string{"nil", "err", "panic", "panicerr", "block"} {
 						for _, ca := range []string{"never", "before", "waiting", "fetch", "running"} {
 							if b == "block" && ca != "running" && dl == "none" {
 								continue // nothing would ever end the work function
